@@ -44,6 +44,7 @@ vars == <<now, qU, qH, qN, closed, parked, kids, S, sent, cancelled, nextSn, vio
 NoTimer == [on |-> FALSE, until |-> 0, id |-> 0, restart |-> FALSE]
 NoKid   == [n |-> 0, exitAt |-> Inf, status |-> "", signalled |-> FALSE]
 NoFlag  == [on |-> FALSE, id |-> 0]
+NoAsync == [on |-> FALSE, until |-> 0, id |-> 0]
 
 InitS == [
     cs      |-> "pending",     \* CommandState: pending | running | finished
@@ -59,6 +60,7 @@ InitS == [
     task    |-> "run",         \* run | ended | panicked
     hookTag |-> -1,            \* which spawn hook is installed (-1 none)
     errh    |-> -1,            \* which error handler is installed (-1 none)
+    afn     |-> NoAsync,       \* a run_async() future being awaited: the task does nothing else until it is done
     live    |-> {},            \* history: children spawned and neither reaped nor dropped
     credit  |-> 0,             \* history: graceful restarts signalled and not yet continued
     out     |-> <<>> ]         \* observations of the current step
@@ -191,8 +193,15 @@ Handle(s0, m, t) ==
             ELSE [s EXCEPT !.onEnd = Append(@, m.id)]
       [] m.ctl = "SyncFunc" ->
             Raise(Emit(s, Ev("marker", m.id, 0, Class(s), s.prev, 0)), m.id)
-      [] m.ctl = "SetSyncSpawnHook" -> Raise([s EXCEPT !.hookTag = m.tag], m.id)
-      [] m.ctl = "SetSyncErrorHandler" -> Raise([s EXCEPT !.errh = m.tag], m.id)
+      [] m.ctl = "AsyncFunc" ->
+            \* the closure runs now (it sees the state as it is); the future it returns is awaited
+            \* by the task itself; the control is done - its flag raised - only afterwards
+            LET s1 == Emit(s, Ev("marker", m.id, 0, Class(s), s.prev, 0)) IN
+            IF m.grace = 0 THEN Raise(Emit(s1, Ev("marker_end", m.id, 0, "", "", 0)), m.id)
+            ELSE [s1 EXCEPT !.afn = [on |-> TRUE, until |-> t + m.grace, id |-> m.id]]
+      [] m.ctl \in {"SetSyncSpawnHook", "SetAsyncSpawnHook"} -> Raise([s EXCEPT !.hookTag = m.tag], m.id)
+      [] m.ctl = "UnsetSpawnHook" -> Raise([s EXCEPT !.hookTag = -1], m.id)
+      [] m.ctl \in {"SetSyncErrorHandler", "SetAsyncErrorHandler"} -> Raise([s EXCEPT !.errh = m.tag], m.id)
       [] m.ctl = "UnsetErrorHandler" -> Raise([s EXCEPT !.errh = -1], m.id)
 
 \* After the main loop: raise `gone`; the task's locals (a child still held) are dropped.
@@ -266,7 +275,8 @@ DropHandle ==
 
 Biased == "biased" \in Fixes
 
-WaitReady(t)  == S.task = "run" /\ S.cs = "running" /\ S.kid.exitAt <= t
+Awaiting      == S.afn.on          \* inside `fut.await` of an AsyncFunc: neither branch of the select! is polled
+WaitReady(t)  == S.task = "run" /\ ~Awaiting /\ S.cs = "running" /\ S.kid.exitAt <= t
 TimerPast(t)  == S.timer.on /\ S.timer.until <= t
 
 \* which source recv() would return from on a fresh poll ("none": it parks)
@@ -289,7 +299,7 @@ ParkedSources(t) ==
     \cup (IF closed /\ qU = <<>> THEN {"X"} ELSE {})
 
 Sources(t) ==
-    IF S.task # "run" THEN {}
+    IF S.task # "run" \/ Awaiting THEN {}
     ELSE IF ~Biased /\ parked THEN ParkedSources(t)
     ELSE IF FreshSource(t) = "none" THEN {} ELSE {FreshSource(t)}
 
@@ -331,11 +341,21 @@ WaitStep(t) ==
     /\ now' = t
     /\ UNCHANGED <<qU, qH, qN, closed, kids, sent, cancelled, nextSn, viol>>
 
+\* The awaited future of an AsyncFunc completes: the control is done.
+AsyncReady(t) == S.task = "run" /\ Awaiting /\ S.afn.until <= t
+AsyncDoneStep(t) ==
+    /\ AsyncReady(t)
+    /\ parked' = FALSE
+    /\ S' = Finish(Raise(Emit([S EXCEPT !.out = <<>>, !.afn = NoAsync], Ev("marker_end", S.afn.id, 0, "", "", 0)), S.afn.id))
+    /\ now' = t
+    /\ UNCHANGED <<qU, qH, qN, closed, kids, sent, cancelled, nextSn, viol>>
+
 \* Without "closed_exit" a closed queue with a running child leaves only the wait branch.
 ClosedStuck == closed /\ "closed_exit" \notin Fixes /\ S.cs = "running"
 
 TaskEnabled(t) ==
     \/ WaitReady(t)
+    \/ AsyncReady(t)
     \/ (Sources(t) # {} /\ ~(ClosedStuck /\ Sources(t) = {"X"}))
 
 \* recv() found nothing and parks in its inner select! (tracked only for the unbiased code)
@@ -347,6 +367,7 @@ Park ==
 
 TaskStep ==
     \/ WaitStep(now)
+    \/ AsyncDoneStep(now)
     \/ \E src \in {"T", "U", "H", "N", "X"} :
           /\ ~(ClosedStuck /\ src = "X")
           /\ RecvStep(src, now)
@@ -355,7 +376,8 @@ TaskStep ==
 NextDeadline ==
     LET a == IF S.task = "run" /\ S.cs = "running" /\ S.kid.exitAt > now THEN S.kid.exitAt ELSE Inf
         b == IF S.task = "run" /\ S.timer.on /\ S.timer.until > now THEN S.timer.until ELSE Inf
-    IN  IF a < b THEN a ELSE b
+    IN  IF S.task = "run" /\ Awaiting THEN (IF S.afn.until > now THEN S.afn.until ELSE Inf)
+        ELSE IF a < b THEN a ELSE b
 
 Quiescent == ~TaskEnabled(now) /\ (Biased \/ parked \/ S.task # "run")
 
